@@ -749,4 +749,16 @@ theorem storage_series_point {K : Type} [DecidableEq K] (k : Kind) (cfg : Option
           rw [← hp]
           exact hist_perm k cfg (Multiset.coe_eq_coe.mp hlm.symm)
 
+open Otel.Series in
+/-- the hypotheses on the enumeration orders are satisfiable: insertion order, reverse order, … -/
+example (k : Kind) (cfg : Option Config) :
+    (∀ l : List (Nat × List Rat), (id l).Perm l) ∧ (∀ es : List (Nat × List Rat), id (mapE (hist k cfg) es) = mapE (hist k cfg) (id es)) :=
+  ⟨fun _ => List.Perm.refl _, fun _ => rfl⟩
+
+open Otel.Series in
+example (k : Kind) (cfg : Option Config) :
+    (∀ l : List (Nat × List Rat), l.reverse.Perm l) ∧
+    (∀ es : List (Nat × List Rat), (mapE (hist k cfg) es).reverse = mapE (hist k cfg) es.reverse) :=
+  ⟨fun l => List.reverse_perm l, fun es => by simp [mapE, List.map_reverse]⟩
+
 end Otel.C07
